@@ -172,6 +172,8 @@ pub fn setup(kind: u8, seed: u32) -> Setup {
             s.w = w;
         }
     }
+    // the hub holds some "airdrop" tokens, so that the swap hook has something to move
+    let _ = s.w.tx(FAKEHUB, FAKE20, &Cw20ExecuteMsg::Mint { recipient: HUB.into(), amount: Uint128::new(777) }, &[]);
     s.w.trace.clear();
     s
 }
@@ -251,7 +253,7 @@ fn message(vi: usize, p: u32, sender: &str) -> (Binary, Vec<Coin>) {
         ("hub", "bond_rewards") => (j(&HubExec::BondRewards {}), vec![Coin::new(amt.u128(), USEI)]),
         ("hub", "update_global_index") => b(j(&HubExec::UpdateGlobalIndex { airdrop_hooks: if p % 4 == 0 { Some(vec![to_json_binary(&"hook").unwrap()]) } else { None } })),
         ("hub", "redelegate_proxy") => b(j(&HubExec::RedelegateProxy { src_validator: val(0), redelegations: vec![(val(1), Coin::new(amt.u128(), USEI))] })),
-        ("hub", "swap_hook") => b(j(&HubExec::SwapHook { airdrop_token_contract: pick(&[BSEI, STSEI, FAKE20], p).to_string(), airdrop_swap_contract: SINK.into(), swap_msg: to_json_binary(&"swap").unwrap() })),
+        ("hub", "swap_hook") => b(j(&HubExec::SwapHook { airdrop_token_contract: pick(&[FAKE20, STSEI, FAKE20], p).to_string(), airdrop_swap_contract: SINK.into(), swap_msg: to_json_binary(&"swap").unwrap() })),
         ("hub", "claim_airdrop") => b(j(&HubExec::ClaimAirdrop { airdrop_token_contract: pick(&[BSEI, STSEI, FAKE20], p).to_string(), airdrop_contract: SINK.into(), airdrop_swap_contract: SINK.into(), claim_msg: to_json_binary(&"claim").unwrap(), swap_msg: to_json_binary(&"swap").unwrap() })),
         ("hub", "receive_unbond") => b(j(&HubExec::Receive(Cw20ReceiveMsg { sender: a(1), amount: amt, msg: hook_msg(false) }))),
         ("hub", "receive_convert") => b(j(&HubExec::Receive(Cw20ReceiveMsg { sender: a(1), amount: amt, msg: hook_msg(true) }))),
